@@ -7,6 +7,7 @@ CONSTANTS
   MaxTs = 3
   MaxRepl = 3
   MaxWrites = 3
+  MergeRestamp = TRUE
   NoSkew = FALSE
   ArmQuota = 0
   EnableRename = FALSE
